@@ -185,18 +185,18 @@ vj::Value run_transfer(const vj::Value& c, MeshT<Shape_>& cmesh, MeshT<Shape_>& 
   std::fprintf(f, "],\"ngc\":%llu,\"ngf\":%llu,\"gc\":", (unsigned long long)ngc, (unsigned long long)ngf);
   put_dofmap(f, cspace);
   std::fputs(",\"gf\":", f); put_dofmap(f, fspace);
-  Proj pp, pr, pt, pv, pxx;
+  Proj pp, pr, pt, pv, pxt_, pry, pxx;
   std::fputs(",\"P\":", f); put_rows(f, P, ps, pp);
   std::fputs(",\"R\":", f); put_rows(f, R, ps, pr);
   std::fputs(",\"TP\":", f);
   if(want_trunc) { MatrixType TP = mat_mat(T, P); put_rows(f, TP, 1.0, pt); } else std::fputs("[]", f);
   std::fputs(",\"x\":", f); put_vec(f, x, 1.0, pxx);
   std::fputs(",\"y\":", f); put_vec(f, y, 1.0, pxx);
-  std::fputs(",\"pxt\":", f); put_vec(f, pxt, ps, pv);
+  std::fputs(",\"pxt\":", f); put_vec(f, pxt, ps, pxt_);
   std::fputs(",\"pxv\":", f); put_vec(f, pxv, ps, pv);
-  std::fputs(",\"ry\":", f); put_vec(f, ry, ps, pv);
-  std::fprintf(f, ",\"pnoise\":%s,\"tnoise\":%s,\"vnoise\":%s,\"rbit\":%s}\n", (pp.noise || pr.noise) ? "true" : "false",
-    pt.noise ? "true" : "false", pv.noise ? "true" : "false", rbit ? "true" : "false");
+  std::fputs(",\"ry\":", f); put_vec(f, ry, ps, pry);
+  std::fprintf(f, ",\"pnoise\":%s,\"tnoise\":%s,\"vnoise\":%s,\"xnoise\":%s,\"rnoise\":%s,\"rbit\":%s}\n", (pp.noise || pr.noise) ? "true" : "false",
+    pt.noise ? "true" : "false", pv.noise ? "true" : "false", pxt_.noise ? "true" : "false", pry.noise ? "true" : "false", rbit ? "true" : "false");
   std::fclose(f);
   if(!exact) return vh::bad("a mesh coordinate left the integer domain at scale 2^K");
   vj::Value r = vh::ok();
